@@ -24,7 +24,7 @@ import ast
 
 from ..core import Ctx, Ob, ok, unres, viol
 from ..flow import LocalDefs
-from ..model import ClassInfo, FuncInfo, dotted, walk_no_nested
+from ..model import ClassInfo, FuncInfo, dotted, unparse, walk_no_nested
 
 SEMIRING = "cirkit.backend.torch.semiring.SemiringImpl"
 
@@ -299,3 +299,75 @@ def r11e(ctx: Ctx) -> list[Ob]:
         else:
             obs.append(unres("R11e", q, "safe-log", "no logarithm found at this site", loc))
     return obs
+
+
+# ------------------------------------------------------------------------------------------ R11g / R11h
+def r11g(ctx: Ctx, modules: tuple[str, ...] = ("cirkit.backend.torch",)) -> list[Ob]:
+    """R11g -- a custom backward only repairs isolated singularities.
+
+    A hand-written ``backward`` (``ComplexSafeLog``) may replace the non-finite value at an isolated
+    point (``x == 0``: ``nan_to_num``, an equality mask) -- it must not *threshold*: an ordering
+    comparison (``abs(x) < eps``) masks the gradient on a set with non-empty interior, and every
+    parameter whose max-shifted value falls below the threshold (weights of 1e-9 in float32) gets the
+    gradient 0 while finite differences and the other semirings see O(1) derivatives."""
+    import ast as _ast
+
+    out: list[Ob] = []
+    for c in ctx.repo.classes.values():
+        if not c.module.name.startswith(modules):
+            continue
+        b = c.methods.get("backward")
+        if b is None:
+            continue
+        bad = None
+        for n in _ast.walk(b.node):
+            if isinstance(n, _ast.Compare) and any(isinstance(o, (_ast.Lt, _ast.LtE, _ast.Gt, _ast.GtE)) for o in n.ops):
+                bad = n
+        if bad is not None:
+            out.append(viol("R11g", c.qualname, "backward:threshold", f"backward masks the gradient with an ordering comparison (`{unparse(bad)[:60]}`): the gradient is set on an open set of inputs, not only at the isolated singularity -- tiny but non-zero values get a zero gradient", f"{c.module.relpath}:{bad.lineno}"))
+        else:
+            out.append(ok("R11g", c.qualname, "backward:threshold", "backward repairs non-finite values only (no ordering comparison)", b.loc))
+    if not out:
+        out.append(unres("R11g", "cirkit.backend.torch", "backward:threshold", "no custom backward found", ""))
+    return out
+
+
+def r11h(ctx: Ctx) -> list[Ob]:
+    """R11h -- learnable means requires_grad for every dtype that carries gradients.
+
+    ``compile_tensor_parameter`` passes ``requires_grad`` to the torch tensor.  It is ``p.learnable``,
+    possibly restricted for dtypes that cannot have gradients (integers).  ``dtype.is_floating_point``
+    is *False* for complex dtypes: a restriction through it alone freezes every learnable complex
+    parameter (the complex-lse-sum circuits) without any error."""
+    import ast as _ast
+
+    from ..canon import FlowCanon
+    from ..cfg import build_cfg
+
+    fq = "cirkit.backend.torch.rules.parameters.compile_tensor_parameter"
+    f = ctx.repo.func(fq)
+    g = ctx.memo("cfg:" + fq, lambda: build_cfg(f.node))
+    fc = ctx.memo("flowcanon:" + fq, lambda: FlowCanon(g))
+    out: list[Ob] = []
+    for n, st in g.stmts.items():
+        if isinstance(st, (_ast.If, _ast.For, _ast.While, _ast.With, _ast.Try)):
+            continue
+        for c in _ast.walk(st):
+            if isinstance(c, _ast.Call):
+                kw = next((k.value for k in c.keywords if k.arg == "requires_grad"), None)
+                if kw is None:
+                    continue
+                e = fc.expr(kw, n)
+                txt = unparse(e)
+                site = f"{f.module.relpath}:{c.lineno}"
+                if txt.endswith(".learnable") and "and" not in txt and "if" not in txt:
+                    out.append(ok("R11h", fq, "requires_grad", f"requires_grad = {txt}", site))
+                elif ".learnable" in txt and "is_floating_point" in txt and "is_complex" not in txt:
+                    out.append(viol("R11h", fq, "requires_grad", f"requires_grad = `{txt[:80]}`: is_floating_point is False for complex dtypes, so learnable complex parameters are compiled frozen (their .grad stays None)", site))
+                elif ".learnable" in txt:
+                    out.append(unres("R11h", fq, "requires_grad", f"requires_grad = `{txt[:80]}`: a restriction of learnable the rule has no model of", site))
+                else:
+                    out.append(viol("R11h", fq, "requires_grad", f"requires_grad = `{txt[:80]}` does not derive from the symbolic parameter's learnable flag", site))
+    if not out:
+        out.append(unres("R11h", fq, "requires_grad", "no requires_grad= keyword found", f.loc))
+    return out
